@@ -5,6 +5,7 @@ import (
 	"fmt"
 	"math"
 	"math/rand"
+	"os"
 	"path/filepath"
 	"reflect"
 	"sort"
@@ -44,6 +45,7 @@ type fence struct {
 	ex       string // EX seconds ("" = none)
 	twin     string // redefined: name of the channel defined once with the same final definition
 	history  string // redefined: the definition it replaced
+	url      string // hook: endpoint URL ("" = the always-accepting receiver of the round)
 }
 
 type obj struct {
@@ -390,6 +392,17 @@ func runC05(r *hx.Result, cfg hx.Config) {
 	// Go doc oracle vs Coq doc_msgs over the whole abstract domain (the two statements of the rule agree)
 	e.docAgreement()
 
+	// the three sinks under endpoint failures: a webhook whose endpoint refuses the k-th request (for
+	// every k) against a channel and a live connection with the same definition (sinks.go)
+	e.sinkSection()
+	if !s.Alive() {
+		r.Fail(hx.Failure{Kind: "oracle", Signature: "server-exit", What: "server exited during the C05 sink-equality section: " + s.LogTail(300)})
+		return
+	}
+
+	if os.Getenv("C05_ONLY_SINKS") != "" { // debugging aid: the sink-equality section alone
+		return
+	}
 	rounds := 9
 	if cfg.Tier == "thorough" {
 		rounds = 300
@@ -646,7 +659,11 @@ func (e *env) install(st *roundState, f *fence, equalPrev bool) {
 			panic("SETCHAN refused: " + v.String() + " " + f.describe())
 		}
 	case "hook":
-		v := st.c.MustDo(append([]string{"SETHOOK", f.name, e.wh.URL("/" + f.name)}, f.args()...)...)
+		url := f.url
+		if url == "" {
+			url = e.wh.URL("/" + f.name)
+		}
+		v := st.c.MustDo(append([]string{"SETHOOK", f.name, url}, f.args()...)...)
 		if v.IsErr() {
 			panic("SETHOOK refused: " + v.String() + " " + f.describe())
 		}
